@@ -139,6 +139,12 @@ struct World {
         P *p = it == obsOwner.end() ? nullptr : prop(it->second);
         return p ? std::to_string(p->get()) : std::string("-");
     }
+    // true while an expression is built in which some property occurs more than once: the order in which the leaves of ONE library
+    // call (`a + b`: make_unique<OperatorNode>(op, makeNode(a), makeNode(b))) subscribe to their properties is the compiler's argument
+    // evaluation order, which is observable only through two leaves on the same property; there the property operands are turned into
+    // nodes first, in the model's left-to-right order (the [Node, ...] overloads are used); otherwise the overload for the operand
+    // kinds as they are is called
+    bool leavesFirst = false;
     NodeI build(const std::vector<std::string> &t, size_t &i);
     void exec(const std::vector<std::string> &t);
 };
@@ -146,9 +152,105 @@ struct World {
 static World *g_w = nullptr;
 static int I(const std::string &s) { return std::atoi(s.c_str()); }
 
+// Function ids >= 100 stand for the library's OWN operator overloads and declared functions (node_operators.h, node_functions.h):
+// the expression is put together with the real `operator OP` overload selected by the operand kinds (Property&, plain value, Node&&) -
+// all eight combinations of the binary macro, both of the unary one.  They print no `fn` line (the library's lambda is not
+// instrumented); the model computes the same values (coq/PropFn.v) and the driver does not print their `fn` events.
+//   100 +   101 -   102 ^   103 &   104 |        110 unary -   111 ~   112 unary +   113 abs
+template<typename L, typename R>
+static NodeI applyBinary(int f, L &&l, R &&r)
+{
+    switch (f) {
+    case 100:
+        return std::forward<L>(l) + std::forward<R>(r);
+    case 101:
+        return std::forward<L>(l) - std::forward<R>(r);
+    case 102:
+        return std::forward<L>(l) ^ std::forward<R>(r);
+    case 103:
+        return std::forward<L>(l) & std::forward<R>(r);
+    default:
+        return std::forward<L>(l) | std::forward<R>(r);
+    }
+}
+template<typename A>
+static NodeI applyUnary(int f, A &&a)
+{
+    switch (f) {
+    case 110:
+        return -std::forward<A>(a);
+    case 111:
+        return ~std::forward<A>(a);
+    case 112:
+        return +std::forward<A>(a);
+    default:
+        return KDBindings::abs(std::forward<A>(a));
+    }
+}
+
+struct Operand {
+    char kind; // 'p' property, 'c' constant, 'n' sub-expression
+    P *prop = nullptr;
+    int value = 0;
+    std::unique_ptr<NodeI> node;
+};
+
 NodeI World::build(const std::vector<std::string> &t, size_t &i)
 {
     const std::string k = t.at(i++);
+    if ((k == "o1" || k == "o2") && I(t.at(i)) >= 100) {
+        const int f = I(t.at(i++));
+        auto operand = [&]() {
+            Operand o;
+            const std::string &kk = t.at(i);
+            if (kk == "p" && leavesFirst) {
+                o.kind = 'n';
+                ++i;
+                o.node = std::make_unique<NodeI>(Private::makeNode(need(I(t.at(i++)))));
+            } else if (kk == "p") {
+                o.kind = 'p';
+                ++i;
+                o.prop = &need(I(t.at(i++)));
+            } else if (kk == "c") {
+                o.kind = 'c';
+                ++i;
+                o.value = I(t.at(i++));
+            } else {
+                o.kind = 'n';
+                o.node = std::make_unique<NodeI>(build(t, i));
+            }
+            return o;
+        };
+        if (k == "o1") {
+            Operand a = operand();
+            if (a.kind == 'p')
+                return applyUnary(f, *a.prop);
+            if (a.kind == 'c') // there is no operator for a plain value: a constant node as operand
+                return applyUnary(f, Private::makeNode(std::move(a.value)));
+            return applyUnary(f, std::move(*a.node));
+        }
+        Operand a = operand();
+        Operand b = operand();
+        if (a.kind == 'c' && b.kind == 'c') // plain values on both sides are not an expression of the library
+            return applyBinary(f, Private::makeNode(std::move(a.value)), std::move(b.value));
+        if (a.kind == 'p') {
+            if (b.kind == 'p')
+                return applyBinary(f, *a.prop, *b.prop);
+            if (b.kind == 'c')
+                return applyBinary(f, *a.prop, std::move(b.value));
+            return applyBinary(f, *a.prop, std::move(*b.node));
+        }
+        if (a.kind == 'c') {
+            if (b.kind == 'p')
+                return applyBinary(f, std::move(a.value), *b.prop);
+            return applyBinary(f, std::move(a.value), std::move(*b.node));
+        }
+        if (b.kind == 'p')
+            return applyBinary(f, std::move(*a.node), *b.prop);
+        if (b.kind == 'c')
+            return applyBinary(f, std::move(*a.node), std::move(b.value));
+        return applyBinary(f, std::move(*a.node), std::move(*b.node));
+    }
     if (k == "c") {
         int v = I(t.at(i++));
         return Private::makeNode(std::move(v));
@@ -267,6 +369,13 @@ void World::exec(const std::vector<std::string> &t)
     } else if (o == "pbind" || o == "bhold") {
         size_t i = 3;
         int mode = I(t[2]);
+        {
+            std::map<std::string, int> occurrences;
+            leavesFirst = false;
+            for (size_t k = 3; k + 1 < t.size(); ++k)
+                if (t[k] == "p" && ++occurrences[t[k + 1]] > 1)
+                    leavesFirst = true;
+        }
         NodeI root = build(t, i);
         if (mode >= 0 && !bevs.count(mode)) {
             out("harness-error no evaluator");
